@@ -4,6 +4,7 @@ import RCE.Driver.SearchD
 import RCE.Driver.UciD
 import RCE.Driver.LegalD
 import RCE.Driver.ConcD
+import RCE.Driver.PerftD
 
 def main (args : List String) : IO UInt32 := do
   match args with
@@ -14,4 +15,5 @@ def main (args : List String) : IO UInt32 := do
   | ["uci"] => RCE.Driver.runUci
   | ["legal"] => RCE.Driver.runLegal
   | ["conc"] => RCE.Driver.runConc
+  | ["perft"] => RCE.Driver.runPerft
   | _ => IO.eprintln "usage: driver walk|tables|search|uci < stream"; return 2
